@@ -536,6 +536,9 @@ rule OctalSal salience -017 { when F.I2 > 99 then F.I2 = 0; }`})
 	concSched, concPoints := c12Concurrent(rep, tier)
 	rep.Coverage["interleaved_store_schedules"] = concSched
 	rep.Coverage["interleaved_store_yield_points"] = concPoints
+	longLoads := c12LongFields(rep)
+	rep.Coverage["long_field_loads"] = longLoads
+	loads += longLoads
 	rep.Coverage["evaluations"] = loads + prefixLoads + writerFaults + concSched
 	rep.Coverage["complete_loads"] = loads
 	rep.Coverage["truncation_points"] = prefixLoads
@@ -548,4 +551,66 @@ rule OctalSal salience -017 { when F.I2 > 99 then F.I2 = 0; }`})
 	}
 	rep.Coverage["rule"] = "corpus: a kitchen-sink knowledge base covering every node kind and meta field (15 operators, both negation kinds, every constant kind incl. nil, method chains, selectors, all five assignment forms, negative salience, unicode description) + 7 small knowledge bases (thorough: + programs of the C01 families, up to 60). For each: store; load through a plain, a one-byte-at-a-time and a data+EOF reader; store(load) and load again (3 generations); EVERY truncation offset of the stream (quick, kitchen-sink only: every field boundary +-1 as recorded by a tracing writer), every 16th also through the one-byte reader; a writer failing at EVERY write-call index with and without a partial write; overwrite=false onto an existing entry (holding one rule, none - a placeholder, a text without rules, every rule removed); store, change the knowledge base (library removal / one more resource), store again, load; build one more resource / remove a rule / re-build a duplicate ON the loaded knowledge base. Oracle: equal name/version/rule names/descriptions/saliences and equal listener traces, results and final facts of instances (2 rule orders + FetchMatchingRules); a truncated stream must give an error or an equivalent knowledge base; a failing writer must give an error. Interleaved stores: 2 (thorough 3) threads each store their own library to their own writer under the cooperative scheduler, every Write call a yield point, every schedule with <= 1 preemption; each store returns nil and its stream loads into an equivalent knowledge base. Non-trivial: every truncation/fault point and every complete load compared behaviourally."
 	_ = facts.New
+}
+
+// c12LongFields: fields longer than any buffer a reader or writer may use (a rule name of 300 bytes, descriptions and
+// string constants of 65 535, 65 536, 65 537, 70 004 and 131 075 bytes): stored, loaded through a plain, a one-byte
+// and a data+EOF reader, two generations; name, description and behaviour must survive. (These knowledge bases take
+// part in the plain generations only: every other enumeration of this check is per stream byte or per write call.)
+func c12LongFields(rep *ev.Reporter) (loads int64) {
+	for _, n := range []int{65535, 65536, 65537, 70004, 131075} {
+		id := fmt.Sprintf("c12/long-fields/%d", n)
+		if rep.ReplayFilter != "" && rep.ReplayFilter != id {
+			continue
+		}
+		desc := strings.Repeat("d", n-4) + "-end"
+		lit := strings.Repeat("x", n-3) + "yz!"
+		text := `rule ` + strings.Repeat("N", 300) + ` "` + desc + `" salience 2 { when F.S != "` + lit + `" && F.I2 == 0 then F.S = "` + lit + `"; F.I2 = F.S.Len(); }`
+		lib := ast.NewKnowledgeLibrary()
+		if err := builder.NewRuleBuilder(lib).BuildRuleFromResource("KB", "1", pkg.NewBytesResource([]byte(text))); err != nil {
+			rep.Violation("harness:build-failed:c12-long-fields", firstLineOf(err.Error()), map[string]interface{}{"case": id})
+			continue
+		}
+		want, _ := c12Behaviour(lib, nil, "KB", "1", []int{0})
+		cur := lib
+		for gen := 1; gen <= 2; gen++ {
+			var buf bytes.Buffer
+			if err := cur.StoreKnowledgeBaseToWriter(&buf, "KB", "1"); err != nil {
+				rep.Violation("C12:store-fails:long-fields", fmt.Sprintf("generation %d, field length %d: %v", gen, n, err), map[string]interface{}{"case": id})
+				break
+			}
+			stream := buf.Bytes()
+			var next *ast.KnowledgeLibrary
+			for ri, mk := range []func(b []byte) io.Reader{
+				func(b []byte) io.Reader { return bytes.NewReader(b) },
+				func(b []byte) io.Reader { return iotest.OneByteReader(bytes.NewReader(b)) },
+				func(b []byte) io.Reader { return &c17ScriptReader{data: b, chunk: 4096, emptyAt: -1, eofWithData: true, failAt: -1} },
+			} {
+				loads++
+				l2 := ast.NewKnowledgeLibrary()
+				kb, err := l2.LoadKnowledgeBaseFromReader(mk(stream), true)
+				how := []string{"plain", "one-byte", "4096-byte-chunks-eof-with-data"}[ri]
+				if err != nil || kb == nil {
+					rep.Violation("C12:load-fails:long-fields:"+how, fmt.Sprintf("generation %d, field length %d: %v", gen, n, err), map[string]interface{}{"case": id})
+					continue
+				}
+				for _, re := range kb.RuleEntries {
+					if re.RuleDescription != desc || len(re.RuleName) != 300 {
+						rep.Violation("C12:metadata-differs-after-load:long-fields:"+how, fmt.Sprintf("generation %d: a description of %d bytes was stored, %d bytes came back (equal: %v); rule name %d bytes", gen, len(desc), len(re.RuleDescription), re.RuleDescription == desc, len(re.RuleName)), map[string]interface{}{"case": id})
+					}
+				}
+				if got, _ := c12Behaviour(l2, nil, "KB", "1", []int{0}); got != want {
+					rep.Violation("C12:behaviour-differs-after-load:long-fields:"+how, fmt.Sprintf("generation %d, string constants of %d bytes: the loaded knowledge base behaves\n   %s\n  the stored one\n   %s", gen, n, trunc(got, 300), trunc(want, 300)), map[string]interface{}{"case": id})
+				}
+				if ri == 0 {
+					next = l2
+				}
+			}
+			if next == nil {
+				break
+			}
+			cur = next
+		}
+	}
+	return
 }
